@@ -458,9 +458,11 @@ def safe_monitor(monitor, case, tr, raw):
         return "the implementation trace does not have the shape the monitor expects (%s: %s)" % (type(e).__name__, e)
 
 
-def correspond(ctx, label, model, exe, cases, monitor=None, known=None):
+def correspond(ctx, label, model, exe, cases, monitor=None, known=None, aux=False):
     """lock-step: same cases through the implementation and the extracted
-    model; traces must be identical.  The monitor (property oracle on the
+    model; traces must be identical (aux=True: the harness emits monitor-only
+    observations of kind 979, which are removed before the comparison; only for
+    harnesses whose output is in trace-quadruple format).  The monitor (property oracle on the
     implementation trace) runs on every case regardless."""
     t0 = time.time()
     impl = run_sharded([exe], cases)
@@ -474,10 +476,10 @@ def correspond(ctx, label, model, exe, cases, monitor=None, known=None):
             steps += len(tr)
             if any(k // 10 in (8, 12) for (_, _, k, _) in tr) or any(k == 909 and v == 0 for (_, _, k, v) in tr):
                 nontrivial.add(c)
-        if strip_aux(impl[i]) != mod[i]:
+        if (strip_aux(impl[i]) if aux else impl[i]) != mod[i]:
             ndiff += 1
             if ndiff <= 3:
-                d = first_diff(strip_aux(impl[i]) or "", mod[i] or "")
+                d = first_diff((strip_aux(impl[i]) if aux else impl[i]) or "", mod[i] or "")
                 ctx.failures.append({"kind": "correspondence", "label": label, "case": c,
                                      "impl": (impl[i] or "")[:4000], "model": (mod[i] or "")[:4000],
                                      "first_diff_event": d})
